@@ -367,7 +367,6 @@ tl::expected<std::string, errors> url_pattern_init::process_hash(
   if (value.starts_with("#")) {
     value.remove_prefix(1);
   }
-  ADA_ASSERT_TRUE(!value.starts_with("#"));
   // If type is "pattern" then return strippedValue.
   if (type == process_type::pattern) {
     return std::string(value);
